@@ -121,6 +121,9 @@ class Interp:
         install(self)
         install_structural(self)
         self.rewrites = []
+        self.node_by_term = {}
+        self.tracked = []
+        self.empty_dict_symbolic = False
         self.map_stack = []
         self.ghost_log = []
 
@@ -172,11 +175,14 @@ class Interp:
         base_writes = len(self.writes)
         base_ghost = len(self.ghost_log)
         saved_occ = dict(self.occ)
+        outermost = not self.oracles
         while pending:
             if len(results) > self.max_paths:
                 raise Unsupported("path explosion")
             dec = pending.pop()
             o = Oracle(dec)
+            if outermost:
+                self.restore_tracked()
             self.oracles.append(o)
             self.occ = dict(saved_occ)
             try:
@@ -191,6 +197,8 @@ class Interp:
                     out.effects = list(self.effects[base_eff:])
                     out.extra["writes"] = list(self.writes[base_writes:])
                     out.extra["ghost"] = list(self.ghost_log[base_ghost:])
+                    if outermost:
+                        out.extra["state"] = self.snapshot_tracked()
                     out.decisions = list(o.decisions)
                     results.append(out)
             finally:
@@ -202,6 +210,87 @@ class Interp:
             pending.extend(o.alternatives)
         self.occ = saved_occ
         return results
+
+    # ---- mutable inputs shared by the paths of an exploration are restored before every run
+    def track(self, obj):
+        if isinstance(obj, SymObj):
+            self.tracked.append((obj, dict(obj.attrs)))
+        elif isinstance(obj, SymDict):
+            self.tracked.append((obj, list(obj.writes)))
+        elif isinstance(obj, PyList):
+            self.tracked.append((obj, list(obj.items)))
+        elif isinstance(obj, PyDict):
+            self.tracked.append((obj, dict(obj.d)))
+        elif isinstance(obj, SymNode):
+            self.tracked.append((obj, (dict(obj.fields), dict(obj.extra))))
+        elif isinstance(obj, SymSet):
+            self.tracked.append((obj, obj.t))
+
+    def restore_tracked(self):
+        for obj, snap in self.tracked:
+            if isinstance(obj, SymObj):
+                obj.attrs = dict(snap)
+            elif isinstance(obj, SymDict):
+                obj.writes = list(snap)
+            elif isinstance(obj, PyList):
+                obj.items = list(snap)
+            elif isinstance(obj, PyDict):
+                obj.d = dict(snap)
+            elif isinstance(obj, SymNode):
+                obj.fields = dict(snap[0])
+                obj.extra = dict(snap[1])
+            elif isinstance(obj, SymSet):
+                obj.t = snap
+
+    def apply_state(self, state):
+        for obj, snap in state or []:
+            if isinstance(obj, SymObj):
+                obj.attrs = dict(snap)
+            elif isinstance(obj, SymDict):
+                obj.writes = list(snap)
+            elif isinstance(obj, PyList):
+                obj.items = list(snap)
+            elif isinstance(obj, PyDict):
+                obj.d = dict(snap)
+            elif isinstance(obj, SymNode):
+                obj.fields = dict(snap[0])
+                obj.extra = dict(snap[1])
+            elif isinstance(obj, SymSet):
+                obj.t = snap
+
+    def snapshot_tracked(self):
+        out = []
+        for obj, _ in self.tracked:
+            if isinstance(obj, SymObj):
+                out.append((obj, dict(obj.attrs)))
+            elif isinstance(obj, SymDict):
+                out.append((obj, list(obj.writes)))
+            elif isinstance(obj, PyList):
+                out.append((obj, list(obj.items)))
+            elif isinstance(obj, PyDict):
+                out.append((obj, dict(obj.d)))
+            elif isinstance(obj, SymNode):
+                out.append((obj, (dict(obj.fields), dict(obj.extra))))
+            elif isinstance(obj, SymSet):
+                out.append((obj, obj.t))
+        return out
+
+    def assume_path_bool(self, thunk):
+        """Add the truth of a boolean contract expression to the *current path* (not a global axiom)."""
+        outs = self.explore(thunk)
+        disj = []
+        for po in outs:
+            if po.kind != "ret":
+                continue
+            t = self.truth(po.value)
+            if t is False:
+                continue
+            parts = list(po.pcs) + ([] if t is True else [t])
+            disj.append(z3.And(*parts) if parts else z3.BoolVal(True))
+        f = z3.Or(*disj) if disj else z3.BoolVal(False)
+        self.pcs.append(f)
+        if not self.feasible([]):
+            raise Infeasible()
 
     def fresh_name(self, node, prefix):
         key = (prefix, getattr(node, "lineno", 0), getattr(node, "col_offset", 0), id(node) if node is None else 0)
@@ -326,6 +415,12 @@ class Interp:
             return self.node_truth(v)
         if isinstance(v, (SymObj, Closure, BoundMethod)):
             return True
+        if isinstance(v, SymDict):
+            if v.base is None and not v.writes:
+                return False
+            if v.writes:
+                return True
+            return fn("dict_nonempty", V, Bool)(v.base)
         if isinstance(v, SymV):
             h = self.builtin_handlers.get("__truth_hook__")
             if h is not None:
@@ -377,7 +472,10 @@ class Interp:
             c.assume(smt.tag(t) == smt.TAG_NODE)
             c.assume(smt.cls_of(t) == self.cls_id(cls))
             c.assume(fn("alloc_id", V, Int)(t) <= 0)
-        return SymNode(cls, t, fields)
+        n = SymNode(cls, t, fields)
+        if assume_facts:
+            self.node_by_term[t.get_id()] = n
+        return n
 
     def project(self, cls, name, kind, t):
         base = self.field_owner(cls, name).__name__
@@ -544,12 +642,12 @@ class Interp:
                 raise PyRaise(SymExc(AttributeError, (name,), origin=f"getattr({type(o).__name__},{name})")) from None
             return Conc(a)
         pytype = {SymInt: int, SymBool: bool, SymStr: str, PyTuple: tuple, PyList: list, PyDict: dict,
-                  SymMap: dict, SymStrMap: dict, SymSet: set, SymReal: float}.get(type(obj))
+                  SymMap: dict, SymStrMap: dict, SymSet: set, SymReal: float, SymDict: dict}.get(type(obj))
         if isinstance(obj, SymSeq):
             pytype = tuple if obj.kind == "tuple" else list
         if pytype is not None and not hasattr(pytype, name):
             raise PyRaise(SymExc(AttributeError, (name,), origin=f"{pytype.__name__}.{name}"))
-        if isinstance(obj, (PyList, PyTuple, PyDict, SymSeq, SymMap, SymStrMap, SymSet, SymStr, SymInt, SymBool)):
+        if isinstance(obj, (PyList, PyTuple, PyDict, SymSeq, SymMap, SymStrMap, SymSet, SymStr, SymInt, SymBool, SymDict)):
             return BoundMethod(obj, ("valmethod", name), name)
         if isinstance(obj, SymV):
             h = self.builtin_handlers.get("__getattr_hook__")
@@ -756,7 +854,7 @@ class Interp:
         if isinstance(a, Conc) and isinstance(b, Conc):
             return a.obj is b.obj or (type(a.obj) in (int, str, bool) and type(a.obj) is type(b.obj) and a.obj == b.obj)
         for x, y in ((a, b), (b, a)):
-            if isinstance(x, (PyList, PyDict, SymObj, Closure, BoundMethod, NativeHandler)):
+            if isinstance(x, (PyList, PyDict, SymObj, Closure, BoundMethod, NativeHandler, SymDict)):
                 return x is y
         if isinstance(a, Conc) and a.obj is None and isinstance(b, (SymInt, SymBool, SymStr, SymSeq, PyTuple, SymNode, SymMap)):
             return False
@@ -836,6 +934,11 @@ class Interp:
                 if t is not True:
                     conj.append(t)
             return z3.And(*conj) if conj else True
+        if isinstance(a, SymSet) or isinstance(b, SymSet):
+            try:
+                return self.as_set(a) == self.as_set(b)
+            except Unsupported:
+                return None
         if isinstance(a, SymSeq) and isinstance(b, Conc) and b.obj == ():
             return z3.Length(a.t) == 0
         if isinstance(b, SymSeq) and isinstance(a, Conc) and a.obj == ():
@@ -883,6 +986,9 @@ class Interp:
             return SymBool(z3.Or(*disj)) if disj else Conc(False)
         if isinstance(container, SymSet):
             return SymBool(z3.IsMember(self.lift(item), container.t))
+        if isinstance(container, SymDict):
+            found, _ = self.symdict_lookup(container, item)
+            return Conc(found)
         if isinstance(container, SymStrMap):
             s = self.as_str(item)
             if s is None:
@@ -942,7 +1048,9 @@ class Interp:
             if i is not None:
                 n = z3.Length(obj.t)
                 if self.decide(z3.And(i >= 0, i < n)):
-                    return SymV(obj.t[i])
+                    el = z3.simplify(obj.t[i])
+                    known = self.node_by_term.get(el.get_id())
+                    return known if known is not None else SymV(el)
                 if self.decide(z3.And(i < 0, i >= -n)):
                     return SymV(obj.t[n + i])
                 raise PyRaise(SymExc(IndexError, (), origin="seq index"))
@@ -953,6 +1061,11 @@ class Interp:
             if self.decide(fn("env_has", V, Str, Bool)(obj.t, s)):
                 return SymV(fn("env_get", V, Str, V)(obj.t, s))
             raise PyRaise(SymExc(KeyError, (idx,), origin="env"))
+        if isinstance(obj, SymDict):
+            found, v = self.symdict_lookup(obj, idx)
+            if found:
+                return v
+            raise PyRaise(SymExc(KeyError, (idx,), origin=f"{obj.name}[...]"))
         if isinstance(obj, SymMap):
             r = self.coupled_map_value(obj, idx)
             if r is not None:
@@ -968,6 +1081,19 @@ class Interp:
             if not self.decide(fn("ok_getitem", V, V, Bool)(to, ti)):
                 raise PyRaise(SymExc(None, (), term=fn("exc_getitem", V, V, V)(to, ti), origin="py_getitem"))
         return SymV(fn("py_getitem", V, V, V)(to, ti))
+
+    def symdict_lookup(self, d, key):
+        kt = self.lift(key)
+        for wk, wkey, wv in reversed(d.writes):
+            if self.decide(wk == kt):
+                return True, wv
+        if d.base is not None:
+            if self.decide(fn("dict_has", V, V, Bool)(d.base, kt)):
+                v = SymV(fn("dict_get", V, V, V)(d.base, kt))
+                if d.inv is not None:
+                    d.inv(self, key, v)
+                return True, v
+        return False, None
 
     def slice_val(self, obj, lo, hi, step):
         def conc_or_none(x):
@@ -1069,6 +1195,28 @@ class Interp:
             return self.make_set([Conc(x) for x in v.obj]).t
         raise Unsupported(f"not a set: {type(v).__name__}")
 
+    def int_sum_of_seq(self, sq):
+        """Sum of a z3 sequence all of whose elements are statically boxed ints (else None)."""
+        k = sq.decl().kind()
+        if k == z3.Z3_OP_SEQ_EMPTY:
+            return z3.IntVal(0)
+        if k == z3.Z3_OP_SEQ_UNIT:
+            el = sq.arg(0)
+            if el.decl().name() == "box_int":
+                return el.arg(0)
+            return None
+        if k == z3.Z3_OP_SEQ_CONCAT:
+            parts = [self.int_sum_of_seq(c) for c in sq.children()]
+            if any(p is None for p in parts):
+                return None
+            return z3.Sum(parts)
+        info = self.map_info.get(sq.get_id())
+        if info is not None and info["val"].decl().name() == "box_int" and z3.is_true(info["ok"]):
+            t = fn("isum", S, Int)(sq)
+            self.ctx.assume(z3.Implies(z3.Length(sq) == 0, t == 0))
+            return t
+        return None
+
     def union_of_seq(self, sq):
         """Union of a z3 sequence of (boxed) sets, decomposed along its concat structure."""
         k = sq.decl().kind()
@@ -1085,9 +1233,13 @@ class Interp:
                 u = self.union_of_seq(ch)
                 out = u if out is None else z3.SetUnion(out, u)
             return out
-        return fn("union_fold", S, smt.SetV)(sq)
+        t = fn("union_fold", S, smt.SetV)(sq)
+        self.ctx.assume(z3.Implies(z3.Length(sq) == 0, t == z3.EmptySet(V)))
+        return t
 
     def e_Dict(self, node, env):
+        if not node.keys and self.empty_dict_symbolic:
+            return SymDict(None, None, self.fresh_name(node, "dict"))
         d = {}
         for k, v in zip(node.keys, node.values):
             if k is None:
@@ -1512,6 +1664,13 @@ class Interp:
             raise Unsupported("mutation inside lifted body")
         if isinstance(obj, PyDict) and isinstance(idx, Conc):
             obj.d[idx.obj] = val
+            return
+        if isinstance(obj, PyDict) and not obj.d:
+            # an empty literal dict that receives a symbolic key becomes a symbolic dict in place
+            raise Unsupported("symbolic key stored into a literal dict (use SymDict via e_Dict promotion)")
+        if isinstance(obj, SymDict):
+            self.ghost_log.append(("dict-write", obj, idx, val))
+            obj.writes.append((self.lift(idx), idx, val))
             return
         if isinstance(obj, PyList) and isinstance(idx, Conc) and isinstance(idx.obj, int):
             obj.items[idx.obj] = val
